@@ -5,7 +5,7 @@
 
 typedef struct { uint8_t valid, type, active, pending, sync_cnt; uint16_t inh_cfg, evt_cfg, inh, evt, inh_rem, ev_rem; } MT;
 static struct { uint8_t op; uint8_t map0; MT t[2]; } M;      /* map0: 3 = TPDO0 maps {A8,P16,B8[0]}, 2 = {A8,P16} (initial), 1 = {A8} */
-static int SYNC_N, TWO_EVENT;
+static int SYNC_N, TWO_EVENT, WIDE;   /* WIDE: TPDO1 maps the 32-bit asynchronous object 2102h instead of the 16-bit 2101h */
 /* cfgs 54..: both TPDOs live on timers of their own (inhibit/event in ticks), so that a timer id one of them keeps beyond the
  * life of its action would hit the other one's timer */
 static const struct { uint16_t inh0, evt0, inh1, evt1; } TMR2[] = { { 3, 2, 2, 0 }, { 3, 2, 0, 3 }, { 0, 3, 0, 4 }, { 2, 4, 3, 3 }, { 0, 3, 2, 0 }, { 3, 0, 2, 2 } };
@@ -51,6 +51,8 @@ static int build(int cfg)
     NC.tpdo[TB + 1].present = 1; NC.tpdo[TB + 1].cobid = 0x40000281u; NC.tpdo[TB + 1].type = (uint8_t)(TWO_EVENT ? 254 : SYNC_N); NC.tpdo[TB + 1].nmap = 1; NC.tpdo[TB + 1].map[0] = TWO_EVENT ? NC_MAP(0x2101, 0, 16) : NC_MAP(0x2110, 0, 8);
     NC.operational = cfg >= 18;
     if (sync0) { NC.tpdo[TB].type = (uint8_t)sync0; NC.tpdo[TB].inhibit = 0; NC.tpdo[TB].event = 0; if (sync0 == 1) { SYNC_N = 2; NC.tpdo[TB + 1].type = 2; } }
+    WIDE = (cfg >= 54);
+    if (WIDE) NC.tpdo[TB + 1].map[0] = NC_MAP(0x2102, 0, 32);
     if (cfg >= 54) {
         NC.tpdo[TB].type = 254; NC.tpdo[TB].inhibit = (uint16_t)(TMR2[cfg - 54].inh0 * 10); NC.tpdo[TB].event = TMR2[cfg - 54].evt0;
         NC.tpdo[TB + 1].inhibit = (uint16_t)(TMR2[cfg - 54].inh1 * 10); NC.tpdo[TB + 1].event = TMR2[cfg - 54].evt1;
@@ -75,6 +77,7 @@ static void transmit(int i)
     MT *t = &M.t[i]; WFrame *f = &X.f[X.n < 8 ? X.n : 7]; X.n++;
     memset(f, 0, sizeof *f);
     if (i == 0) { f->id = 0x181; f->dlc = (uint8_t)(M.map0 == 1 ? 1 : M.map0 == 2 ? 3 : 4); f->d[0] = A8; if (M.map0 >= 2) { f->d[1] = (uint8_t)P16; f->d[2] = (uint8_t)(P16 >> 8); } if (M.map0 == 3) f->d[3] = B8[0]; }
+    else if (TWO_EVENT && WIDE) { f->id = 0x281; f->dlc = 4; f->d[0] = (uint8_t)A32; f->d[1] = (uint8_t)(A32 >> 8); f->d[2] = (uint8_t)(A32 >> 16); f->d[3] = (uint8_t)(A32 >> 24); }
     else if (TWO_EVENT) { f->id = 0x281; f->dlc = 2; f->d[0] = (uint8_t)A16; f->d[1] = (uint8_t)(A16 >> 8); }
     else { f->id = 0x281; f->dlc = 1; f->d[0] = P8; }
     if (t->inh) t->inh_rem = t->inh;
@@ -104,6 +107,11 @@ static int step(int e)
     case E_WR_SAME: (void)CODictWrByte(&Node.Dict, CO_DEV(0x2100, 0), A8); break;
     case E_WR_A16: { uint16_t nv = (uint16_t)(A16 == 0x3344 ? 0x4433 : 0x3344);
         if (!TWO_EVENT) return MC_SKIP;
+        if (WIDE) {                                   /* the change is in the upper half only: a comparison narrower than the object would miss it */
+            uint32_t nv32 = A32 == 0x778899AAu ? 0x118899AAu : 0x778899AAu;
+            { uint32_t old = A32; A32 = nv32; trigger(1); A32 = old; }
+            (void)CODictWrLong(&Node.Dict, CO_DEV(0x2102, 0), nv32); break;
+        }
         { uint16_t old = A16; A16 = nv; trigger(1); A16 = old; }
         (void)CODictWrWord(&Node.Dict, CO_DEV(0x2101, 0), nv); break; }
     case E_REMAP1: case E_REMAP3: {
